@@ -84,6 +84,19 @@ def gen(rng):
     }
 
 
+PINS = {}
+CUR = {'k': None}
+
+
+def pin(case, sig):
+    """a replay visits only the crash point that produced ``sig``"""
+    import copy
+    c = copy.deepcopy(case)
+    if sig in PINS:
+        c['only_crash'] = PINS[sig]
+    return c
+
+
 def check(sim, case, st):
     spec = case['procs'][-1]
     if posixpath.basename(spec['argv'][0]) != 'trash-put':
@@ -97,6 +110,7 @@ def check(sim, case, st):
     named = None
     first = True
     final = None
+    PINS.clear()
     for k, n, before, r, snap in EC.sweep(sim, case, st):
         if k == 'full':
             named = [OP.name_entry(sim.root, spec.get('cwd', '/'), a, before, mounts) for a in files]
@@ -118,11 +132,13 @@ def check(sim, case, st):
         tdirs = ML.trash_dirs_in(snap) | ML.trash_dirs_in(before)
         newp = [(T, N) for T in tdirs for N in ML.payloads(snap, T) - ML.payloads(before, T)]
         where = 'k=%s/%s before %s' % (k, n, killop)
+        CUR['k'] = ['intr', k[1]] if isinstance(k, tuple) else ['kill', k]
 
         def bad(clause, msg, nm=None):
             cls = '%s/%s' % ('cross' if note.get('cross') else 'same', killop or 'end')
-            res.append(('C05/%s/%s/%s' % (clause, nm.ekind if nm else '-', cls),
-                        '%s (kill %s; argv %r)' % (msg, where, spec['argv'])))
+            sig = 'C05/%s/%s/%s' % (clause, nm.ekind if nm else '-', cls)
+            PINS.setdefault(sig, list(CUR['k']))
+            res.append((sig, '%s (kill %s; argv %r)' % (msg, where, spec['argv'])))
         # 1. every argument complete at its origin or complete in a trash dir
         for nm in named:
             bt = Wd.subtree(before, nm.loc)
